@@ -600,3 +600,18 @@ pub fn with_slot_removals(us: Vec<Universe>) -> Vec<Universe> {
         })
         .collect()
 }
+
+/// one universe holding the sub-configurations of *every* kind vector over n slots: a chain step may
+/// re-declare a job id with another kind (an Output that becomes an Ephemeral, ...)
+pub fn slots_kindswap(n: usize) -> Vec<Universe> {
+    let mut graphs = Vec::new();
+    for ks in kind_vectors(n) {
+        graphs.extend(sub_graphs(&full_forward(&ks)));
+    }
+    graphs.sort_by_key(|g| (g.n(), g.edges.len()));
+    graphs.dedup();
+    vec![Universe {
+        label: format!("kindswap{}", n),
+        graphs,
+    }]
+}
